@@ -257,7 +257,9 @@ def vm_cond(ctx):
                 top = max(encl, key=lambda l: len(l.blocks))
                 oks = [b for b, _ in ret_sites_by(it, lambda v: is_variant(v, 'result::Result', 'Ok'))]
                 rc0 = Reach(facts, vb, Evaluator(facts))
-                byp = [b for b in oks if b in rc0._reach(0, {top.head})]
+                rets = [i_ for i_, blk_ in enumerate(vb.blocks) if not blk_['cleanup'] and blk_['term']['k'] == 'return']
+                # an `Ok` assigned before the scan is a shortcut only if the function can return from there without scanning
+                byp = [b for b in oks if b in rc0._reach(0, {top.head}) and any(r_ in rc0._reach(b, {top.head}) for r_ in rets)]
                 if byp:
                     errs.append('a path returns Ok without scanning the entries (shortcut at line %d): a reused dot goes unreported there' % block_line(it, byp[0]))
         ctx.check(not errs, inst, vb, 'Err exactly under (different element, equal counter), all pairs scanned', errs[0] if errs else '', details=det)
